@@ -91,6 +91,7 @@ def check(ctx):
     ]
     ctx.rule("R1", "every character whose token the grammar excludes from subprocess argument parts triggers quoting (is in completion_quoting._PATTERN)", floor=14)
     ctx.rule("R2", "path completer and bash-completion bridge decide quoting through the one shared helper (no drifting private copies)", floor=2)
+    ctx.rule("R3", "both emitters escape the closing delimiter in force, on every path, after backslash doubling and before the assembly start+name+end", floor=10)
 
     cq = ctx.repo.module(CQ)
     pattern = _pattern_text(cq)
@@ -137,15 +138,106 @@ def check(ctx):
         uses = any(isinstance(n, ast.Call) and last_attr(n) == "name_needs_quotes" for n in ast.walk(m.tree))
         ctx.ob("R2", rel, "quoting is decided by completion_quoting.name_needs_quotes", uses, key=f"{rel}|helper-not-used", where=rel)
 
+    # ------------------------------------------------------------------ R3
+    # the two sibling emitters assemble `start + s + end`; what stands between the delimiters must
+    # have the *current* closing delimiter escaped (a delimiter chosen per name: the escape text
+    # cannot be computed before the choice), backslashes doubled first.
+    from ..engine import dataflow as df
+    from ..engine.cfg import CFG
+
+    for rel, fname in ((PC, "_quote_paths"), (BC, "_bash_quote_paths")):
+        m = ctx.repo.module(rel)
+        fn = m.func(fname)
+        site = f"{rel}:{fname}"
+        cfg = CFG(fn)
+        defs = df.all_defs(fn)
+
+        def is_concat3(e):
+            return isinstance(e, ast.BinOp) and isinstance(e.op, ast.Add) and isinstance(e.left, ast.BinOp) and isinstance(e.left.op, ast.Add) and all(isinstance(x, ast.Name) for x in (e.left.left, e.left.right, e.right))
+
+        asm = []
+        for n in cfg.nodes:
+            if n.kind == "stmt" and isinstance(n.ast, ast.Assign):
+                for x in ast.walk(n.ast.value):
+                    if is_concat3(x) and isinstance(n.ast.targets[0], ast.Name) and x.left.right.id == n.ast.targets[0].id:
+                        asm.append((n, x.left.left.id, x.left.right.id, x.right.id))
+        if len(asm) != 1:
+            raise AnchorMissing(f"{site}: the assembly `<start> + <name> + <end>` was not found exactly once ({len(asm)})")
+        anode, OPEN, BODY, CLOSE = asm[0]
+
+        def repl_of(n, what):
+            """the `BODY = BODY.replace(<what>, X)` call of a node, or None"""
+            if n.kind == "stmt" and isinstance(n.ast, ast.Assign) and unparse(n.ast.targets[0]) == BODY:
+                c = n.ast.value
+                if isinstance(c, ast.Call) and unparse(c.func) == f"{BODY}.replace" and len(c.args) == 2 and unparse(c.args[0]) == what:
+                    return c
+            return None
+
+        esc_nodes = [n for n in cfg.nodes if repl_of(n, CLOSE) is not None]
+        ok = bool(esc_nodes)
+        ctx.ob("R3", site, f"occurrences of the closing delimiter `{CLOSE}` inside the name are escaped (`{BODY}.replace({CLOSE}, ...)`)", ok, key=f"{fname}|no-delimiter-escape", where=loc(fn))
+        if not ok:
+            continue
+        # every path to the assembly tests `CLOSE in BODY`, and the true edge leads to the escape
+        tests = [n for n in cfg.nodes if n.kind == "if" and unparse(n.ast.test) == f"{CLOSE} in {BODY}"]
+        ok = bool(tests) and cfg.dominated(anode, lambda x: x in tests) and all(any(cfg.edge_dominates(t, "true", e) for t in tests) for e in esc_nodes)
+        ctx.ob("R3", site, f"every path to the assembly passes the test `{CLOSE} in {BODY}` whose true edge is the escape (no path emits an unescaped delimiter)", ok, key=f"{fname}|escape-skipped", where=loc(anode.ast))
+        # nothing rebinds the delimiter (or the name) between the escape and the assembly
+        for e in esc_nodes:
+            seen = cfg.reach([e], stop=lambda x: x is anode)
+            bad = [x for x in seen if x is not anode and x.kind == "stmt" and isinstance(x.ast, (ast.Assign, ast.AugAssign)) and any(isinstance(t, ast.Name) and t.id == CLOSE for tt in (x.ast.targets if isinstance(x.ast, ast.Assign) else [x.ast.target]) for t in ast.walk(tt))]
+            ctx.ob("R3", site, f"`{CLOSE}` is not rebound between the escape and the assembly", not bad, key=f"{fname}|delimiter-rebound-after-escape", where=loc(bad[0].ast) if bad else loc(e.ast))
+            # the escape text is a function of the delimiter *in force at the escape*
+            c = repl_of(e, CLOSE)
+            bound = {t.id for g in ast.walk(c.args[1]) if isinstance(g, ast.comprehension) for t in ast.walk(g.target) if isinstance(t, ast.Name)}
+            names = [x for x in ast.walk(c.args[1]) if isinstance(x, ast.Name) and x.id not in bound and isinstance(x.ctx, ast.Load)]
+            fresh = any(x.id == CLOSE for x in names)
+            stale = None
+            derived = fresh
+            close_defs = [cn for d in defs.get(CLOSE, []) if d.kind != "param" for cn in cfg.nodes_of(d.stmt)]
+            for x in names:
+                if x.id == CLOSE:
+                    continue
+                for d in defs.get(x.id, []):
+                    if d.value is None or CLOSE not in {y.id for y in ast.walk(d.value) if isinstance(y, ast.Name)}:
+                        continue
+                    derived = True
+                    dn = cfg.nodes_of(d.stmt)
+                    after = cfg.reach(dn, stop=lambda y: y in dn)
+                    for r in close_defs:
+                        if r in after and e in cfg.reach([r], stop=lambda y: y in dn):
+                            stale = (x.id, d, r)
+            ctx.ob("R3", site, f"the escape text `{short(c.args[1], 50)}` is computed from the closing delimiter", derived, key=f"{fname}|escape-not-derived", where=loc(c))
+            ctx.ob(
+                "R3",
+                site,
+                f"the escape text is computed from the delimiter in force at the escape (the delimiter is chosen per name: a value derived before `{CLOSE}` is rebound escapes the wrong character)",
+                stale is None,
+                key=f"{fname}|stale-escape",
+                where=loc(c),
+                detail=(f"`{stale[0]}` is computed at line {stale[1].stmt.lineno}; `{CLOSE}` is rebound at line {stale[2].ast.lineno} before the escape uses it" if stale else None),
+            )
+            # backslashes are doubled before the delimiter escape introduces its own
+            bs = [n for n in cfg.nodes if n.kind == "stmt" and isinstance(n.ast, ast.Assign) and isinstance(n.ast.value, ast.Call) and unparse(n.ast.value.func) == f"{BODY}.replace" and len(n.ast.value.args) == 2 and "backslash" in unparse(n.ast.value.args[0])]
+            if bs:
+                loop = next((l for l in ast.walk(fn) if isinstance(l, ast.For) and any(e.ast is y for y in ast.walk(l))), None)
+                inner = CFG(loop.body) if loop is not None else cfg
+                e2 = inner.nodes_of(e.ast)
+                okb, pth = inner.never_after(e2, lambda y: any(y.ast is b.ast for b in bs))
+                ctx.ob("R3", site, "backslash doubling never follows the delimiter escape (its introduced backslashes would be doubled)", okb, key=f"{fname}|backslash-after-escape", where=loc(e.ast))
+
 
 META = {
-    "technique": "static analysis: lexer spelling tables and handlers -> token types, grammar exclusion set, regex syntax-tree character class; set inclusion",
+    "technique": "static analysis: lexer spelling tables and handlers -> token types, grammar exclusion set, regex syntax-tree character class; set inclusion; CFG dominance / reaching-definition (stale copy) check of the two quote emitters",
     "text": "Decides one necessary table agreement of the property over all characters: the single- and multi-character "
     "spellings whose PLY token the grammar excludes from subprocess argument parts (read from token_map, "
     "special_handlers/_make_matcher_handler, the bracket handlers and handle_error_token) must each contain a "
     "character of the quoting trigger class of completion_quoting._PATTERN (read from its regex syntax tree), plus "
-    "the and/or word alternatives; and both completers use that single helper. The string-level round trip through "
-    "_quote_paths and the analyser's totality are value properties and are not decided.",
+    "the and/or word alternatives; both completers use that single helper; and the two sibling emitters "
+    "(_quote_paths, _bash_quote_paths) follow one emission discipline on every path: the closing delimiter in force "
+    "is escaped inside the name (escape text derived from the delimiter *after* the per-name choice, never a stale "
+    "copy), under a test every path to the assembly passes, after backslash doubling and before start+name+end. "
+    "The string-level round trip and the analyser's totality are value properties and are not decided.",
     "note": "Decides the listed structural clause, not the behaviour. POSIX branch of the pattern is analysed. "
     "Known finding: `!` (BANG) is excluded from argument parts but does not trigger quoting.",
 }
